@@ -237,6 +237,11 @@ class World:
     # .. build
     def _exec_build(self, step, idx):
         what = step["what"]
+        live = self._build(step)
+        self._finish_build(step, idx, what, live)
+
+    def _build(self, step):
+        what = step["what"]
         if what == "value":
             val = model.from_jsonable(step["value"])
             live = model.fresh(val)
@@ -252,8 +257,19 @@ class World:
             live = Primitive.polygon([ops.pt(p) for p in step["verts"]])
         else:
             raise HarnessError(f"unknown build {what}")
+        return live
+
+    def _finish_build(self, step, idx, what, live):
         self.library_calls += 1
         v = model.value(live)
+        if step.get("repeat"):
+            again = self._build(step)
+            self.library_calls += 1
+            self.stats.inc("fault:repeat:fired")
+            if model.bits(again) != model.bits(live):
+                raise Violation("reask", "C10", idx,
+                                f"the same construction {what}{_argstr(step)} repeated gives another object: "
+                                f"{_short(model.value(again))} after {_short(v)}")
         self.slots[step["dst"]] = Obj(live, v, model.bits(live), kernel.sane(v), idx)
         self._check_bystanders(idx, {step["dst"]}, "build")
         self._logline(idx, "build", ops._jsonify(model.bits(live)))
@@ -268,6 +284,9 @@ class World:
         pre = model.value(o.live)
         if op == "move":
             v = ops.pt(step["v"])
+            if all(isinstance(c, (int, Fraction)) for c in v):
+                # a rational vector is stored at the library's resolution (denominator <= 10**9)
+                v = tuple(Fraction(c).limit_denominator(10**9) for c in v)
             fn = lambda val: model.model_move(val, v[0], v[1])  # noqa: E731
             args_rational = all(isinstance(c, (int, Fraction)) for c in v)
             rel = 1e-12
@@ -300,7 +319,7 @@ class World:
                             f"{op} changed the structure: {model.structure(pred)} expected, {model.structure(post)} found")
         exact = args_rational and kernel.is_rational(pre)
         if exact or op == "invert":
-            if model.value_bits(pred) != model.bits(o.live):
+            if model.value_bits(pred) != model.bits(o.live) and not model.matches_at_resolution(post, pred):
                 ok, why = model.close_values(post, pred, 0.0)
                 raise Violation("transform-exact", "C09", idx,
                                 f"{op}{_argstr(step)} on rational data is not the exact affine image: {why}")
@@ -548,17 +567,21 @@ class World:
             self.stats.inc("probe:twin_copy_raised_on_insane_value")
             return
         mon = faults.Monitor.get()
+        mode = fl.get("mode", "structural")
+        if mode == "all" and not all(isinstance(o.V, str) or kernel.is_polygonal(o.V) for o in objs):
+            mode = "structural"  # every event of a curved operation: minutes per call
+        budget = 40 * self.budget  # all event kinds are counted here, not only function entries
         signal.setitimer(signal.ITIMER_REAL, CALL_WALL)
         try:
             _o, _p, info_c = mon.run(lambda: ops.perform(step, [twins[n] for n in names]),
-                                     mode=fl.get("mode", "structural"), budget=self.budget)
+                                     mode=mode, budget=budget)
             total = info_c["count"]
             if total == 0:
                 self.stats.inc("fault:interrupt:no_events")
                 return
             k = min(total, 1 + int(fl["kfrac"] * total))
-            outcome, payload, info = mon.run(lambda: ops.perform(step, lives), mode=fl.get("mode", "structural"),
-                                             target=k, exc=faults.ERROR_KINDS[fl["exc"]], budget=self.budget)
+            outcome, payload, info = mon.run(lambda: ops.perform(step, lives), mode=mode,
+                                             target=k, exc=faults.ERROR_KINDS[fl["exc"]], budget=budget)
         except faults.SimBudgetExceeded as e:
             raise Violation("hang", "any", idx, f"interrupted call of {op}: {e}")
         except CallTimeout:
@@ -719,7 +742,7 @@ def _ansstr(ans):
 
 
 def _argstr(step):
-    keys = [k for k in step if k not in ("op", "a", "b", "dst", "t1", "t2", "repeat", "drop", "same_answer_as", "needs", "expect", "force_expect", "force_t2")]
+    keys = [k for k in step if k not in ("op", "a", "b", "dst", "t1", "t2", "repeat", "drop", "same_answer_as", "needs", "expect", "force_expect", "force_t2", "fault")]
     return "(" + ", ".join(f"{k}={_argval(step[k])}" for k in keys) + ")"
 
 
